@@ -10,7 +10,8 @@
   parties outside the tier.  "The distribution of `h` seats is adequate" = the evaluator answers for `h` seats
   and gives every tier key at least its floor (`Adequate`).
 -/
-import VotelibProofs.Lemmas.OverhangLR
+import VotelibProofs.Lemmas.OverhangLRCont
+import VotelibProofs.Lemmas.OverhangByParty
 import Mathlib.Algebra.Order.Archimedean.Basic
 namespace VL.C15
 open VL VL.OH
@@ -291,6 +292,34 @@ theorem level_terminates (div : Nat → Rat) (hd : (∀ k, 0 < div k) ∧ Strict
       have heq : n - drop + (max H0 (n - drop + 1) - (n - drop)) = max H0 (n - drop + 1) := by omega
       rw [heq]
       exact ⟨_, hev _ (by omega), (belowMin_false_iff _ _).mpr (hH0 _ h2)⟩)
+  refine ⟨H + drop - n, ?_⟩
+  unfold levelOverhang
+  rw [hp]
+  simp only [bind, Except.bind, hfloors, hdr]
+  rw [if_neg (by omega)]
+  simp only [hH]
+  rfl
+
+/-- **Termination from any adequate house size** (any evaluator, `Tie` keys among the floors allowed): if some house
+    size `n − drop + d` is adequate and the evaluator answers at every size on the way, the loop returns with `d` units
+    of fuel.  (Whether an adequate size always exists when the baseline result contains a `Tie` key is open: the tie
+    has to recur with the same members; no counterexample was found for D'Hondt, Sainte-Laguë or Hare-LR on all vote
+    vectors over {1..7}^≤3 and {1..5}^4 with houses up to 7, and no proof either — the fuel hypothesis stays.) -/
+theorem level_terminates_of_adequate (ev : PropEval) (votes : Votes) (n : Nat) (prev : Seats) (prop : Dist)
+    (hp : ev votes n [] [] = .ok prop) (hdrop : nonpropDrop (lowestAllowed prop prev) prev ≤ n) (d : Nat)
+    (hans : ∀ k, n - nonpropDrop (lowestAllowed prop prev) prev < k →
+      k ≤ n - nonpropDrop (lowestAllowed prop prev) prev + d → ∃ r, ev votes k [] [] = .ok r)
+    (h0 : d = 0 → MeetsFloors prop (lowestAllowed prop prev))
+    (hd : 0 < d → Adequate ev votes [] (lowestAllowed prop prev) (n - nonpropDrop (lowestAllowed prop prev) prev + d)) :
+    ∀ fuel, d ≤ fuel → ∃ adj, levelOverhang ev fuel votes n prev [] = .ok adj := by
+  intro fuel hfuel
+  generalize hfloors : lowestAllowed prop prev = floors at hdrop hans h0 hd
+  generalize hdr : nonpropDrop floors prev = drop at hdrop hans hd
+  obtain ⟨H, hH⟩ := levelLoop_terminates (fun h => ev votes h [] []) floors d (n - drop) prop fuel hfuel hans
+    (fun hd0 => (belowMin_false_iff _ _).mpr (h0 hd0))
+    (fun hpos => by
+      obtain ⟨r, hr, hm⟩ := hd hpos
+      exact ⟨r, hr, (belowMin_false_iff _ _).mpr hm⟩)
   refine ⟨H + drop - n, ?_⟩
   unfold levelOverhang
   rw [hp]
@@ -674,6 +703,136 @@ theorem level_terminates_lr (votes : Votes) (hv : ∀ p ∈ votes, 0 ≤ p.2) (h
   rfl
 
 
+/-- **Final totals = proportional distribution of the enlarged house, Hare largest remainder** as both the
+    levelling and the distributing evaluator (minimal model `lrHareEval`): non-negative votes, distinct parties, every
+    party listed in the direct-seat map stands in the election, all direct seats belong to parties of the proportional
+    tier, and the proportional distribution `full` of the enlarged house reports no tie.  Then for every party direct
+    seats plus the seats awarded by `AdjustedSeatCount.evaluate` are exactly its seats in `full`, and no `Tie` is awarded. -/
+theorem level_final_is_proportional_lr (votes : Votes) (hv : ∀ p ∈ votes, 0 ≤ p.2) (hn : (keys votes).Nodup)
+    (fuel n : Nat) (prev : Seats) (hpn : (prev.map (·.1)).Nodup) (hpk : ∀ p ∈ prev, p.1 ∈ keys votes)
+    (adj : Nat) (res prop full : Dist)
+    (hc : levelOverhang lrHareEval fuel votes n prev [] = .ok adj)
+    (hr : adjustedSeatCount (levelOverhang lrHareEval fuel) lrHareEval votes n prev [] = .ok res)
+    (hp : lrHareEval votes n [] [] = .ok prop)
+    (htier : ∀ p ∈ prev, 0 < p.2 → distHas prop (.cand p.1) = true)
+    (hfull : lrHareEval votes (n + adj) [] [] = .ok full)
+    (hnotie : ∀ p ∈ full, ∃ c, p.1 = .cand c) :
+    (∀ p ∈ votes, natLookup prev p.1 0 + distGet res (.cand p.1) = distGet full (.cand p.1)) ∧
+    (∀ p ∈ res, ∃ c, p.1 = .cand c) := by
+  obtain ⟨prop', hp', _, _, hcases⟩ := level_is_least lrHareEval fuel votes n prev [] adj hc
+  rw [hp] at hp'
+  have hpe : prop' = prop := (Except.ok.inj hp').symm
+  subst hpe
+  have hpnd : (prop'.map (·.1)).Nodup := lrHare_nodup votes hn n [] [] prop' hp
+  have hdrop : nonpropDrop (lowestAllowed prop' prev) prev = 0 := by
+    rw [nonpropDrop_eq, List.sum_eq_zero_iff]
+    intro x hx
+    obtain ⟨p, hpm, rfl⟩ := List.mem_map.mp hx
+    rw [distHas_lowestAllowed]
+    by_cases hz : 0 < p.2
+    · rw [htier p hpm hz]; rfl
+    · have : p.2 = 0 := by omega
+      split <;> simp [this]
+  rw [hdrop] at hcases
+  have hmeets : MeetsFloors full (lowestAllowed prop' prev) := by
+    rcases hcases with ⟨h0, hm⟩ | ⟨_, _, ⟨r, hr', hm⟩, _⟩
+    · subst h0
+      rw [Nat.add_zero, hp] at hfull
+      rw [← Except.ok.inj hfull]; exact hm
+    · rw [Nat.sub_zero, hfull] at hr'
+      rw [Except.ok.inj hr']; exact hm
+  -- votes is not empty (the evaluation of the tier answered with seats or the map is empty …)
+  by_cases hne : votes = []
+  · subst hne
+    refine ⟨fun p hp' => by simp at hp', ?_⟩
+    intro p hpr
+    unfold adjustedSeatCount at hr
+    rw [hc] at hr
+    simp only [bind, Except.bind] at hr
+    obtain ⟨hre, _⟩ := lrHare_result [] (n + adj) prev res hr
+    rw [hre] at hpr
+    simp [lrBest, lrRems, lrQe, getNBest, sortDesc, seatsToDist] at hpr
+  have hle : ∀ p ∈ votes, natLookup prev p.1 0 ≤ distGet full (.cand p.1) := by
+    intro p _
+    by_cases hz : 0 < natLookup prev p.1 0
+    · unfold natLookup at hz ⊢
+      cases hf : prev.find? (fun q => q.1 = p.1) with
+      | none => simp
+      | some q =>
+        rw [hf] at hz
+        simp only at hz ⊢
+        have hq := List.mem_of_find?_eq_some hf
+        have hqc := List.find?_some hf
+        simp only [decide_eq_true_eq] at hqc
+        have hin := htier q hq hz
+        rw [distHas_iff, hqc] at hin
+        obtain ⟨e, he, hek⟩ := List.mem_map.mp hin
+        have hm := hmeets (e.1, max (prevGetKey prev e.1) e.2)
+          (by unfold lowestAllowed; exact List.mem_map.mpr ⟨e, he, rfl⟩)
+        simp only at hm
+        rw [hek] at hm
+        have hpk' : prevGetKey prev (.cand p.1) = q.2 := by
+          simp only [prevGetKey]; unfold natLookup; rw [hf]
+        rw [hpk'] at hm
+        omega
+    · omega
+  have hnt0 : ∀ s ∈ lrBest votes (n + adj) [], isTieSlot s = false := by
+    intro s hs
+    cases s with
+    | cand c => rfl
+    | tie T =>
+      exfalso
+      obtain ⟨hfe, _⟩ := lrHare_result votes (n + adj) [] full hfull
+      have hpos := tie_key_of_tie_slot _ (seatsToDist (lrQe votes (n + adj) [])) T hs
+      rw [← hfe] at hpos
+      obtain ⟨e, he, hek⟩ := List.mem_map.mp (distGet_pos_mem hpos)
+      obtain ⟨c, hcc⟩ := hnotie e he
+      rw [hek] at hcc
+      cases hcc
+  unfold adjustedSeatCount at hr
+  rw [hc] at hr
+  simp only [bind, Except.bind] at hr
+  obtain ⟨hcont, hntP⟩ := lr_continue votes hne hv hn (n + adj) prev hpn hpk res full hr hfull hnt0 hle
+  refine ⟨hcont, ?_⟩
+  -- no Tie key in the awarded result
+  intro p hpr
+  obtain ⟨hre, _⟩ := lrHare_result votes (n + adj) prev res hr
+  cases hk : p.1 with
+  | cand c => exact ⟨c, rfl⟩
+  | tie T =>
+    exfalso
+    -- a tie key can only come from a tie slot
+    have hkey : ∀ (best : List Slot) (qd : Dist), (∀ s ∈ best, isTieSlot s = false) →
+        (∀ e ∈ qd, ∃ c, e.1 = Key.cand c) → ∀ e ∈ best.foldl incSlot qd, ∃ c, e.1 = Key.cand c := by
+      intro best
+      induction best with
+      | nil => intro qd _ hq e he; exact hq e he
+      | cons x xs ih =>
+        intro qd hb hq e he
+        rw [List.foldl_cons] at he
+        apply ih (incSlot qd x) (fun s hs => hb s (List.mem_cons_of_mem _ hs)) _ e he
+        intro e' he'
+        cases x with
+        | tie T' => have := hb (Slot.tie T') List.mem_cons_self; simp [isTieSlot] at this
+        | cand c =>
+          simp only [incSlot] at he'
+          have hmem : e'.1 ∈ (setK qd (Key.cand c) (distGet qd (Key.cand c) + 1)).map (·.1) :=
+            List.mem_map.mpr ⟨e', he', rfl⟩
+          rw [mem_keys_setK] at hmem
+          rcases hmem with hm | hm
+          · obtain ⟨e0, he0, hek⟩ := List.mem_map.mp hm
+            obtain ⟨c0, hc0⟩ := hq e0 he0
+            exact ⟨c0, by rw [← hek]; exact hc0⟩
+          · exact ⟨c, hm⟩
+    rw [hre] at hpr
+    obtain ⟨c, hcc⟩ := hkey _ _ hntP (fun e he => by
+      unfold seatsToDist at he
+      obtain ⟨x, _, rfl⟩ := List.mem_map.mp he
+      exact ⟨x.1, rfl⟩) p hpr
+    rw [hk] at hcc
+    cases hcc
+
+
 /-! ### LevelOverhangByConstituency -/
 
 /-- **Levelling by constituency is least** (any way `ovAt` of obtaining the overall distribution).  With the floors
@@ -783,6 +942,48 @@ theorem level_cty_direct_seat_counted :
       [(0, [(0, 60), (1, 30)]), (1, [(0, 90), (1, 10)])] 5 [(1, [(1, 1)])] = .ok 4 := by
   refine ⟨by decide +kernel, by decide +kernel, by decide +kernel⟩
 
+/-! ### the by-constituency variant through ByParty -/
+
+theorem partyVotes_ok (cv : CVotes) (hcn : (cv.map (·.1)).Nodup) (hvn : ∀ d ∈ cv, ∀ p ∈ d.2, 0 ≤ p.2) (k : Key) :
+    (∀ p ∈ partyVotes cv k, 0 ≤ p.2) ∧ (keys (partyVotes cv k)).Nodup := by
+  refine ⟨?_, ?_⟩
+  · intro p hp
+    unfold partyVotes at hp
+    obtain ⟨d, hd, rfl⟩ := List.mem_map.mp hp
+    simp only
+    cases k with
+    | tie T => simp [partyVotesIn]
+    | cand c =>
+      simp only [partyVotesIn]
+      unfold getD lookup
+      cases hf : d.2.find? (fun q => q.1 = c) with
+      | none => simp
+      | some q => simpa using hvn d hd q (List.mem_of_find?_eq_some hf)
+  · unfold keys partyVotes
+    rw [List.map_map]
+    exact hcn
+
+/-- **Final party totals = the overall proportional distribution of the enlarged house (ByParty stage).**
+    `AdjustedSeatCount(calculator, ByParty(ov, HighestAverages))` on votes by constituency (distinct constituencies,
+    non-negative votes): for every party of the overall distribution `overall` of the enlarged house `n + adj` whose
+    direct seats (summed over the constituencies) do not exceed its overall seats, direct seats plus the seats awarded
+    over all constituency rows are exactly its overall seats. -/
+theorem level_cty_final_party_totals (div : Nat → Rat) (hd : (∀ k, 0 < div k) ∧ StrictMono div) (cv : CVotes)
+    (hcn : (cv.map (·.1)).Nodup) (hvn : ∀ d ∈ cv, ∀ p ∈ d.2, 0 ≤ p.2) (calcr : CCalc) (ov : PropEval)
+    (n : Nat) (prev : CSeats) (adj : Nat) (R : NDist) (overall : Dist)
+    (hc : calcr cv n prev = .ok adj) (hR : adjustedByParty calcr ov (haEval div) cv n prev = .ok R)
+    (hov : ov (voteTotals cv) (n + adj) [] [] = .ok overall) (hond : (overall.map (·.1)).Nodup)
+    (e : Key × Nat) (he : e ∈ overall) (hfit : sumSeats (partyPrev prev e.1) ≤ e.2) :
+    sumSeats (partyPrev prev e.1) + colSum R e.1 = e.2 := by
+  unfold adjustedByParty at hR
+  rw [hc] at hR
+  simp only [bind, Except.bind] at hR
+  exact byParty_party_total ov (haEval div) cv (n + adj) prev R overall hR hov hond
+    (fun votes m pr r h => haEval_nodup div votes m pr [] r h)
+    (fun k m pr r h hle =>
+      haEval_fills div hd (partyVotes cv k) (partyVotes_ok cv hcn hvn k).1 (partyVotes_ok cv hcn hvn k).2 m pr r h hle)
+    e he hfit
+
 /-! ### non-vacuity: concrete inputs meeting the hypotheses of the conditional theorems -/
 
 section Examples
@@ -821,6 +1022,13 @@ example : levelOverhang (haEval sainte_lague) 400 exVotes 5 [(2, 2), (3, 1)] [] 
 /-- the repository's unit test: LevelOverhang(LargestRemainder('hare')), votes 500:300:100, 9 seats, direct 1:0:2 -> 4 -/
 example : levelOverhang lrHareEval 400 [(0, 500), (1, 300), (2, 100)] 9 [(0, 1), (1, 0), (2, 2)] [] = .ok 4 := by
   decide +kernel
+/-- the same input meets the hypotheses of `level_final_is_proportional_lr`: house 9 + 4 = 13, final totals 7:4:2 -/
+example : adjustedSeatCount (levelOverhang lrHareEval 400) lrHareEval [(0, 500), (1, 300), (2, 100)] 9
+    [(0, 1), (1, 0), (2, 2)] [] = .ok [(.cand 0, 6), (.cand 1, 4)] := by decide +kernel
+example : lrHareEval [(0, 500), (1, 300), (2, 100)] 9 [] [] = .ok [(.cand 0, 5), (.cand 1, 3), (.cand 2, 1)] := by
+  decide +kernel
+example : lrHareEval [(0, 500), (1, 300), (2, 100)] (9 + 4) [] [] = .ok [(.cand 0, 7), (.cand 1, 4), (.cand 2, 2)] := by
+  decide +kernel
 /-- by constituency: two constituencies with 3 and 2 seats, D'Hondt, party 1 holds both seats of constituency 1 -/
 example : levelOverhangCty (byConstituencyFixed (haEval d_hondt) [(0, 3), (1, 2)]) (haEval d_hondt) 400
     [(0, [(0, 60), (1, 30)]), (1, [(0, 50), (1, 40)])] 5 [(1, [(1, 2)])] = .ok 2 := by decide +kernel
@@ -828,6 +1036,11 @@ example : levelOverhangCty (byConstituencyFixed (haEval d_hondt) [(0, 3), (1, 2)
     apportioned by D'Hondt over the constituency totals 90:100, party 1 holds a direct seat in constituency 1 -/
 example : levelOverhangCtyDefault (byConstituencyApportioned (haEval d_hondt) (haEval d_hondt)) 200
     [(0, [(0, 60), (1, 30)]), (1, [(0, 90), (1, 10)])] 5 [(1, [(1, 1)])] = .ok 1 := by decide +kernel
+/-- ByParty stage on the by-constituency example above: adjustment 4, overall D'Hondt distribution of 9 seats 7:2,
+    rows by constituency; party 1 keeps its direct seat of constituency 1 and gets one more in constituency 0 -/
+example : adjustedByParty (levelOverhangCty (byConstituencyFixed (haEval d_hondt) [(0, 3), (1, 2)]) (haEval d_hondt) 200)
+    (haEval d_hondt) (haEval d_hondt) [(0, [(0, 60), (1, 30)]), (1, [(0, 90), (1, 10)])] 5 [(1, [(1, 1)])]
+    = .ok [(.cand 0, [(.cand 0, 3), (.cand 1, 1)]), (.cand 1, [(.cand 0, 4)])] := by decide +kernel
 
 end Examples
 
